@@ -1,0 +1,341 @@
+//go:build verif
+
+// Contracts for the verification machinery in /verif (comment only, no code).
+// Language: /verif/DESIGN.md section 3.1.  has(r,t): resource r defines type t;
+// rv(r,t): its value, 0 when missing or r == nil.  All vector contracts are pointwise in t.
+package resources
+
+//@ global Zero != nil && Zero.Resources != nil && (forall t Key :: !has(Zero, t))
+
+//@ spec wfr(r *Resource) bool = r == nil || r.Resources != nil
+//@ spec posv(x int) int = x < 0 ? 0 : x
+
+// ---------------------------------------------------------------- scalar calculators
+
+//@ func addVal(valA, valB Quantity) (res Quantity)
+//@   props C18
+//@   pure
+//@   ensures res == clamp64(valA + valB)
+
+//@ func subVal(valA, valB Quantity) (res Quantity)
+//@   props C18
+//@   pure
+//@   ensures res == clamp64(valA - valB)
+
+//@ func mulVal(valA, valB Quantity) (res Quantity)
+//@   props C18
+//@   pure
+//@   ensures res == clamp64(valA * valB)
+
+// ---------------------------------------------------------------- constructors / copies
+
+//@ func NewResource() (r *Resource)
+//@   props C18
+//@   assigns nothing
+//@   ensures fresh(r) && fresh(r.Resources) && r.Resources != nil && (forall t Key :: !has(r, t))
+
+//@ func (r *Resource) Clone() (c *Resource)
+//@   props C18
+//@   assigns nothing
+//@   ensures r == nil ==> c == nil
+//@   ensures r != nil ==> fresh(c) && fresh(c.Resources) && c.Resources != nil
+//@   ensures r != nil ==> (forall t Key :: has(c, t) == has(r, t) && rv(c, t) == rv(r, t))
+//@   loop 1: invariant ret != nil && fresh(ret) && fresh(ret.Resources) && ret.Resources != nil
+//@   loop 1: invariant forall t Key :: has(ret, t) == seen(t)
+//@   loop 1: invariant forall t Key :: seen(t) ==> has(r, t) && rv(ret, t) == rv(r, t)
+
+//@ func (r *Resource) Prune()
+//@   props C18
+//@   assigns r.Resources[*]
+//@   ensures forall t Key :: has(r, t) == (old(has(r, t)) && old(rv(r, t)) != 0)
+//@   ensures forall t Key :: rv(r, t) == old(rv(r, t))
+//@   loop 1: invariant r != nil
+//@   loop 1: invariant forall t Key :: has(r, t) == (old(has(r, t)) && !(seen(t) && old(rv(r, t)) == 0))
+//@   loop 1: invariant forall t Key :: has(r, t) ==> rv(r, t) == old(rv(r, t))
+//@   loop 1: invariant forall t Key :: seen(t) ==> old(has(r, t))
+
+// ---------------------------------------------------------------- in place operations: the frame is the receiver's map
+
+//@ func (r *Resource) AddTo(add *Resource)
+//@   props C18
+//@   requires wfr(r)
+//@   assigns r.Resources[*]
+//@   ensures r != nil ==> (forall t Key :: has(r, t) == (old(has(r, t)) || old(has(add, t))))
+//@   ensures r != nil ==> (forall t Key :: rv(r, t) == (old(has(add, t)) ? clamp64(old(rv(r, t)) + old(rv(add, t))) : old(rv(r, t))))
+//@   ensures r != nil && add != nil && r.Resources != add.Resources ==> (forall t Key :: has(add, t) == old(has(add, t)) && rv(add, t) == old(rv(add, t)))
+//@   loop 1: invariant r != nil && add != nil && r.Resources != nil
+//@   loop 1: invariant forall t Key :: seen(t) ==> old(has(add, t))
+//@   loop 1: invariant forall t Key :: has(add, t) == old(has(add, t))
+//@   loop 1: invariant forall t Key :: has(r, t) == (old(has(r, t)) || seen(t))
+//@   loop 1: invariant forall t Key :: rv(r, t) == (seen(t) ? clamp64(old(rv(r, t)) + old(rv(add, t))) : old(rv(r, t)))
+//@   loop 1: invariant r.Resources != add.Resources ==> (forall t Key :: rv(add, t) == old(rv(add, t)))
+
+//@ func (r *Resource) SubFrom(sub *Resource)
+//@   props C18
+//@   requires wfr(r)
+//@   assigns r.Resources[*]
+//@   ensures r != nil ==> (forall t Key :: has(r, t) == (old(has(r, t)) || old(has(sub, t))))
+//@   ensures r != nil ==> (forall t Key :: rv(r, t) == (old(has(sub, t)) ? clamp64(old(rv(r, t)) - old(rv(sub, t))) : old(rv(r, t))))
+//@   ensures r != nil && sub != nil && r.Resources != sub.Resources ==> (forall t Key :: has(sub, t) == old(has(sub, t)) && rv(sub, t) == old(rv(sub, t)))
+//@   loop 1: invariant r != nil && sub != nil && r.Resources != nil
+//@   loop 1: invariant forall t Key :: seen(t) ==> old(has(sub, t))
+//@   loop 1: invariant forall t Key :: has(sub, t) == old(has(sub, t))
+//@   loop 1: invariant forall t Key :: has(r, t) == (old(has(r, t)) || seen(t))
+//@   loop 1: invariant forall t Key :: rv(r, t) == (seen(t) ? clamp64(old(rv(r, t)) - old(rv(sub, t))) : old(rv(r, t)))
+//@   loop 1: invariant r.Resources != sub.Resources ==> (forall t Key :: rv(sub, t) == old(rv(sub, t)))
+
+// ---------------------------------------------------------------- binary operations: arguments unchanged, result fresh
+
+//@ func Add(left, right *Resource) (out *Resource)
+//@   props C18
+//@   assigns nothing
+//@   ensures fresh(out) && fresh(out.Resources) && out.Resources != nil
+//@   ensures forall t Key :: has(out, t) == (has(left, t) || has(right, t))
+//@   ensures forall t Key :: rv(out, t) == clamp64(rv(left, t) + rv(right, t))
+//@   loop 1: invariant out != nil && fresh(out) && fresh(out.Resources) && out.Resources != nil
+//@   loop 1: invariant forall t Key :: has(out, t) == (has(old(left), t) || seen(t))
+//@   loop 1: invariant forall t Key :: rv(out, t) == (seen(t) ? clamp64(rv(old(left), t) + rv(right, t)) : rv(old(left), t))
+//@   loop 1: invariant forall t Key :: seen(t) ==> has(right, t)
+
+//@ func Sub(left, right *Resource) (out *Resource)
+//@   props C18
+//@   assigns nothing
+//@   ensures fresh(out) && fresh(out.Resources) && out.Resources != nil
+//@   ensures forall t Key :: has(out, t) == (has(left, t) || has(right, t))
+//@   ensures forall t Key :: rv(out, t) == clamp64(rv(left, t) - rv(right, t))
+//@   loop 1: invariant out != nil && fresh(out) && fresh(out.Resources) && out.Resources != nil
+//@   loop 1: invariant forall t Key :: has(out, t) == (has(old(left), t) || seen(t))
+//@   loop 1: invariant forall t Key :: rv(out, t) == (seen(t) ? clamp64(rv(old(left), t) - rv(right, t)) : rv(old(left), t))
+//@   loop 1: invariant forall t Key :: seen(t) ==> has(right, t)
+
+//@ func SubOnlyExisting(base, delta *Resource) (out *Resource)
+//@   props C18
+//@   assigns nothing
+//@   ensures base == nil ==> out == nil
+//@   ensures base != nil ==> fresh(out) && fresh(out.Resources) && out.Resources != nil
+//@   ensures forall t Key :: has(out, t) == has(base, t)
+//@   ensures forall t Key :: has(base, t) ==> rv(out, t) == clamp64(rv(base, t) - rv(delta, t))
+//@   loop 1: invariant result != nil && fresh(result) && fresh(result.Resources) && result.Resources != nil
+//@   loop 1: invariant forall t Key :: has(result, t) == seen(t)
+//@   loop 1: invariant forall t Key :: seen(t) ==> has(base, t) && rv(result, t) == clamp64(rv(base, t) - rv(delta, t))
+
+//@ func AddOnlyExisting(base, delta *Resource) (out *Resource)
+//@   props C18
+//@   assigns nothing
+//@   ensures base == nil ==> out == nil
+//@   ensures base != nil ==> fresh(out) && fresh(out.Resources) && out.Resources != nil
+//@   ensures forall t Key :: has(out, t) == has(base, t)
+//@   ensures forall t Key :: has(base, t) ==> rv(out, t) == clamp64(rv(base, t) + rv(delta, t))
+//@   loop 1: invariant result != nil && fresh(result) && fresh(result.Resources) && result.Resources != nil
+//@   loop 1: invariant forall t Key :: has(result, t) == seen(t)
+//@   loop 1: invariant forall t Key :: seen(t) ==> has(base, t) && rv(result, t) == clamp64(rv(base, t) + rv(delta, t))
+
+//@ func subNonNegative(left, right *Resource) (out *Resource, msg string)
+//@   props C18
+//@   assigns nothing
+//@   ensures fresh(out) && fresh(out.Resources) && out.Resources != nil
+//@   ensures forall t Key :: has(out, t) == (has(left, t) || has(right, t))
+//@   ensures forall t Key :: rv(out, t) == (has(right, t) ? posv(clamp64(rv(left, t) - rv(right, t))) : rv(left, t))
+//@   ensures (msg != "") <==> (exists t Key :: has(right, t) && rv(left, t) - rv(right, t) < 0)
+//@   loop 1: invariant out != nil && fresh(out) && fresh(out.Resources) && out.Resources != nil
+//@   loop 1: invariant forall t Key :: has(out, t) == (has(old(left), t) || seen(t))
+//@   loop 1: invariant forall t Key :: rv(out, t) == (seen(t) ? posv(clamp64(rv(old(left), t) - rv(right, t))) : rv(old(left), t))
+//@   loop 1: invariant forall t Key :: seen(t) ==> has(right, t)
+//@   loop 1: invariant (message != "") <==> (exists t Key :: seen(t) && rv(old(left), t) - rv(right, t) < 0)
+
+//@ func SubEliminateNegative(left, right *Resource) (out *Resource)
+//@   props C18
+//@   assigns nothing
+//@   ensures fresh(out) && fresh(out.Resources) && out.Resources != nil
+//@   ensures forall t Key :: has(out, t) == (has(left, t) || has(right, t))
+//@   ensures forall t Key :: rv(out, t) == (has(right, t) ? posv(clamp64(rv(left, t) - rv(right, t))) : rv(left, t))
+
+//@ func SubErrorNegative(left, right *Resource) (out *Resource, err error)
+//@   props C18
+//@   assigns nothing
+//@   ensures fresh(out) && fresh(out.Resources) && out.Resources != nil
+//@   ensures forall t Key :: has(out, t) == (has(left, t) || has(right, t))
+//@   ensures forall t Key :: rv(out, t) == (has(right, t) ? posv(clamp64(rv(left, t) - rv(right, t))) : rv(left, t))
+//@   ensures (err != nil) <==> (exists t Key :: has(right, t) && rv(left, t) - rv(right, t) < 0)
+
+//@ func Multiply(base *Resource, ratio int64) (out *Resource)
+//@   props C18
+//@   assigns nothing
+//@   ensures fresh(out) && fresh(out.Resources) && out.Resources != nil
+//@   ensures forall t Key :: has(out, t) == (ratio != 0 && has(base, t))
+//@   ensures forall t Key :: rv(out, t) == (ratio == 0 ? 0 : clamp64(rv(base, t) * ratio))
+//@   loop 1: invariant ret != nil && fresh(ret) && fresh(ret.Resources) && ret.Resources != nil && qRatio == ratio
+//@   loop 1: invariant forall t Key :: has(ret, t) == seen(t)
+//@   loop 1: invariant forall t Key :: seen(t) ==> has(base, t) && rv(ret, t) == clamp64(rv(base, t) * ratio)
+
+//@ func ComponentWiseMin(left, right *Resource) (out *Resource)
+//@   props C18
+//@   assigns nothing
+//@   ensures left == nil && right == nil ==> out == nil
+//@   ensures left != nil || right != nil ==> fresh(out) && fresh(out.Resources) && out.Resources != nil
+//@   ensures forall t Key :: has(out, t) == (has(left, t) || has(right, t))
+//@   ensures forall t Key :: has(left, t) && has(right, t) ==> rv(out, t) == min(rv(left, t), rv(right, t))
+//@   ensures forall t Key :: has(left, t) && !has(right, t) ==> rv(out, t) == rv(left, t)
+//@   ensures forall t Key :: !has(left, t) && has(right, t) ==> rv(out, t) == rv(right, t)
+//@   loop 1: invariant out != nil && fresh(out) && fresh(out.Resources) && out.Resources != nil && left != nil && right != nil
+//@   loop 1: invariant forall t Key :: has(out, t) == seen(t)
+//@   loop 1: invariant forall t Key :: seen(t) ==> has(left, t) && rv(out, t) == (has(right, t) ? min(rv(left, t), rv(right, t)) : rv(left, t))
+//@   loop 2: invariant out != nil && fresh(out) && fresh(out.Resources) && out.Resources != nil && left != nil && right != nil
+//@   loop 2: invariant forall t Key :: has(out, t) == (has(left, t) || seen(t))
+//@   loop 2: invariant forall t Key :: seen(t) ==> has(right, t)
+//@   loop 2: invariant forall t Key :: has(left, t) ==> rv(out, t) == (has(right, t) ? min(rv(left, t), rv(right, t)) : rv(left, t))
+//@   loop 2: invariant forall t Key :: seen(t) && !has(left, t) ==> rv(out, t) == rv(right, t)
+
+//@ func ComponentWiseMinOnlyExisting(left, right *Resource) (out *Resource)
+//@   props C18
+//@   assigns nothing
+//@   ensures left == nil ==> out == nil
+//@   ensures left != nil ==> fresh(out) && fresh(out.Resources) && out.Resources != nil
+//@   ensures forall t Key :: has(out, t) == has(left, t)
+//@   ensures forall t Key :: has(left, t) ==> rv(out, t) == (has(right, t) ? min(rv(left, t), rv(right, t)) : rv(left, t))
+//@   loop 1: invariant out != nil && fresh(out) && fresh(out.Resources) && out.Resources != nil && left != nil && right != nil
+//@   loop 1: invariant forall t Key :: has(out, t) == seen(t)
+//@   loop 1: invariant forall t Key :: seen(t) ==> has(left, t) && rv(out, t) == (has(right, t) ? min(rv(left, t), rv(right, t)) : rv(left, t))
+
+//@ func ComponentWiseMax(left, right *Resource) (out *Resource)
+//@   props C18
+//@   assigns nothing
+//@   ensures fresh(out) && fresh(out.Resources) && out.Resources != nil
+//@   ensures left == nil || right == nil ==> (forall t Key :: !has(out, t))
+//@   ensures left != nil && right != nil ==> (forall t Key :: has(out, t) == (has(left, t) || has(right, t)))
+//@   ensures left != nil && right != nil ==> (forall t Key :: rv(out, t) == max(rv(left, t), rv(right, t)))
+//@   loop 1: invariant out != nil && fresh(out) && fresh(out.Resources) && out.Resources != nil && left != nil && right != nil
+//@   loop 1: invariant forall t Key :: has(out, t) == seen(t)
+//@   loop 1: invariant forall t Key :: seen(t) ==> has(left, t) && rv(out, t) == max(rv(left, t), rv(right, t))
+//@   loop 2: invariant out != nil && fresh(out) && fresh(out.Resources) && out.Resources != nil && left != nil && right != nil
+//@   loop 2: invariant forall t Key :: has(out, t) == (has(left, t) || seen(t))
+//@   loop 2: invariant forall t Key :: seen(t) ==> has(right, t)
+//@   loop 2: invariant forall t Key :: has(out, t) ==> rv(out, t) == max(rv(left, t), rv(right, t))
+
+//@ func MergeIfNotPresent(left, right *Resource) (out *Resource)
+//@   props C18
+//@   assigns nothing
+//@   ensures left == nil && right == nil ==> out == nil
+//@   ensures left != nil || right != nil ==> fresh(out) && fresh(out.Resources) && out.Resources != nil
+//@   ensures forall t Key :: has(out, t) == (has(left, t) || has(right, t))
+//@   ensures forall t Key :: rv(out, t) == (has(left, t) ? rv(left, t) : rv(right, t))
+//@   loop 1: invariant out != nil && fresh(out) && fresh(out.Resources) && out.Resources != nil && left != nil && right != nil
+//@   loop 1: invariant forall t Key :: has(out, t) == (has(left, t) || seen(t))
+//@   loop 1: invariant forall t Key :: seen(t) ==> has(right, t)
+//@   loop 1: invariant forall t Key :: rv(out, t) == (has(left, t) ? rv(left, t) : (seen(t) ? rv(right, t) : 0))
+
+// ---------------------------------------------------------------- predicates (pure)
+
+//@ func (r *Resource) fitIn(smaller *Resource, skipUndef bool, actual bool) (ok bool)
+//@   props C18
+//@   pure
+//@   ensures ok <==> (forall t Key :: has(smaller, t) ==> ((skipUndef && !has(r, t)) || rv(smaller, t) <= (actual ? rv(r, t) : posv(rv(r, t)))))
+//@   loop 1: invariant smaller != nil && r != nil && (old(r) == nil ==> (forall t Key :: !has(r, t)))  && (old(r) != nil ==> r == old(r))
+//@   loop 1: invariant forall t Key :: seen(t) ==> ((skipUndef && !has(r, t)) || rv(smaller, t) <= (actual ? rv(r, t) : posv(rv(r, t))))
+
+//@ func (r *Resource) FitIn(smaller *Resource) (ok bool)
+//@   props C18
+//@   pure
+//@   ensures ok <==> (forall t Key :: has(smaller, t) ==> rv(smaller, t) <= posv(rv(r, t)))
+
+//@ func (r *Resource) FitInMaxUndef(smaller *Resource) (ok bool)
+//@   props C18
+//@   pure
+//@   ensures ok <==> (forall t Key :: has(smaller, t) && has(r, t) ==> rv(smaller, t) <= posv(rv(r, t)))
+
+//@ func (r *Resource) FitInActual(smaller *Resource) (ok bool)
+//@   props C18
+//@   pure
+//@   ensures ok <==> (forall t Key :: has(smaller, t) && has(r, t) ==> rv(smaller, t) <= rv(r, t))
+
+//@ func StrictlyGreaterThanOrEquals(larger, smaller *Resource) (ok bool)
+//@   props C18
+//@   pure
+//@   ensures ok <==> (forall t Key :: rv(larger, t) >= rv(smaller, t))
+//@   loop 1: invariant larger != nil && smaller != nil && (forall t Key :: has(larger, t) == has(old(larger), t) && rv(larger, t) == rv(old(larger), t) && has(smaller, t) == has(old(smaller), t) && rv(smaller, t) == rv(old(smaller), t))
+//@   loop 1: invariant forall t Key :: seen(t) ==> rv(larger, t) >= rv(smaller, t)
+//@   loop 2: invariant larger != nil && smaller != nil && (forall t Key :: has(larger, t) == has(old(larger), t) && rv(larger, t) == rv(old(larger), t) && has(smaller, t) == has(old(smaller), t) && rv(smaller, t) == rv(old(smaller), t))
+//@   loop 2: invariant forall t Key :: has(larger, t) ==> rv(larger, t) >= rv(smaller, t)
+//@   loop 2: invariant forall t Key :: seen(t) ==> rv(larger, t) >= rv(smaller, t)
+
+//@ func StrictlyGreaterThan(larger, smaller *Resource) (ok bool)
+//@   props C18
+//@   pure
+//@   ensures ok <==> ((forall t Key :: rv(larger, t) >= rv(smaller, t)) && (exists t Key :: rv(larger, t) != rv(smaller, t)))
+//@   loop 1: invariant larger != nil && smaller != nil && (forall t Key :: has(larger, t) == has(old(larger), t) && rv(larger, t) == rv(old(larger), t) && has(smaller, t) == has(old(smaller), t) && rv(smaller, t) == rv(old(smaller), t))
+//@   loop 1: invariant forall t Key :: seen(t) ==> rv(larger, t) >= rv(smaller, t)
+//@   loop 1: invariant forall t Key :: seen(t) ==> has(larger, t)
+//@   loop 1: invariant notEqual <==> (exists t Key :: seen(t) && rv(larger, t) != rv(smaller, t))
+//@   loop 2: invariant larger != nil && smaller != nil && (forall t Key :: has(larger, t) == has(old(larger), t) && rv(larger, t) == rv(old(larger), t) && has(smaller, t) == has(old(smaller), t) && rv(smaller, t) == rv(old(smaller), t))
+//@   loop 2: invariant forall t Key :: has(larger, t) ==> rv(larger, t) >= rv(smaller, t)
+//@   loop 2: invariant forall t Key :: seen(t) ==> rv(larger, t) >= rv(smaller, t)
+//@   loop 2: invariant notEqual <==> (exists t Key :: (has(larger, t) || seen(t)) && rv(larger, t) != rv(smaller, t))
+
+//@ func StrictlyGreaterThanZero(larger *Resource) (ok bool)
+//@   props C18
+//@   pure
+//@   ensures ok <==> ((forall t Key :: rv(larger, t) >= 0) && (exists t Key :: rv(larger, t) > 0))
+//@   loop 1: invariant larger != nil
+//@   loop 1: invariant forall t Key :: seen(t) ==> rv(larger, t) >= 0
+//@   loop 1: invariant greater <==> (exists t Key :: seen(t) && rv(larger, t) > 0)
+
+//@ func Equals(left, right *Resource) (ok bool)
+//@   props C18
+//@   pure
+//@   ensures left == right ==> ok
+//@   ensures left != right && (left == nil || right == nil) ==> !ok
+//@   ensures left != nil && right != nil ==> (ok <==> (forall t Key :: rv(left, t) == rv(right, t)))
+//@   loop 1: invariant left != nil && right != nil
+//@   loop 1: invariant forall t Key :: seen(t) ==> rv(left, t) == rv(right, t)
+//@   loop 2: invariant left != nil && right != nil
+//@   loop 2: invariant forall t Key :: has(left, t) ==> rv(left, t) == rv(right, t)
+//@   loop 2: invariant forall t Key :: seen(t) ==> rv(left, t) == rv(right, t)
+
+//@ func DeepEquals(left, right *Resource) (ok bool)
+//@   props C18
+//@   pure
+//@   ensures left == right ==> ok
+//@   ensures left != right && (left == nil || right == nil) ==> !ok
+//@   ensures ok && left != nil && right != nil ==> (forall t Key :: has(left, t) ==> has(right, t) && rv(left, t) == rv(right, t))
+//@   ensures ok && left != nil && right != nil ==> len(left.Resources) == len(right.Resources)
+//@   loop 1: invariant left != nil && right != nil && len(left.Resources) == len(right.Resources)
+//@   loop 1: invariant forall t Key :: seen(t) ==> has(right, t) && rv(left, t) == rv(right, t)
+
+//@ func IsZero(zero *Resource) (ok bool)
+//@   props C18
+//@   pure
+//@   ensures ok <==> (forall t Key :: rv(zero, t) == 0)
+//@   loop 1: invariant zero != nil
+//@   loop 1: invariant forall t Key :: seen(t) ==> rv(zero, t) == 0
+
+//@ func (r *Resource) IsEmpty() (ok bool)
+//@   props C18
+//@   pure
+//@   ensures ok ==> (forall t Key :: !has(r, t))
+//@   ensures !ok ==> r != nil && len(r.Resources) != 0
+
+//@ func (r *Resource) HasNegativeValue() (ok bool)
+//@   props C18
+//@   pure
+//@   ensures ok <==> (exists t Key :: rv(r, t) < 0)
+//@   loop 1: invariant r != nil
+//@   loop 1: invariant forall t Key :: seen(t) ==> rv(r, t) >= 0
+
+//@ func (r *Resource) MatchAny(other *Resource) (ok bool)
+//@   props C18
+//@   pure
+//@   ensures r == nil || other == nil ==> !ok
+//@   ensures r != nil && other != nil && r != other ==> (ok <==> (exists t Key :: has(r, t) && has(other, t)))
+//@   loop 1: invariant r != nil && other != nil
+//@   loop 1: invariant forall t Key :: seen(t) ==> !has(other, t)
+
+//@ func EqualsOrEmpty(left, right *Resource) (ok bool)
+//@   props C18
+//@   pure
+//@   ensures (forall t Key :: rv(left, t) == 0) && (forall t Key :: rv(right, t) == 0) ==> ok
+//@   ensures left != nil && right != nil ==> (ok <==> (forall t Key :: rv(left, t) == rv(right, t)))
+
+//@ func (r *Resource) TypeMatching(other *Resource) (n uint64)
+//@   props C18
+//@   pure
+//@   sweep
